@@ -182,7 +182,9 @@ def run(ctx):
         if form == "csr-shuffled":
             rows = [rng.sample(r, len(r)) for r in rows]
         if kind == "mc":
-            P = np.array([[1.0 / len(rows[i]) if A[i][j] else 0.0 for j in range(n)] for i in range(n)])
+            # unequal probabilities inside a row, so that a permuted row is a different chain
+            W = [[(rng.randint(1, 4) if A[i][j] else 0) for j in range(n)] for i in range(n)]
+            P = np.array([[W[i][j] / sum(W[i]) for j in range(n)] for i in range(n)])
         if form == "dense":
             arg = Ad.astype(bool) if rng.random() < 0.5 else Ad
         elif form == "weighted":
@@ -209,7 +211,7 @@ def run(ctx):
             indptr = np.cumsum([0] + [len(ent) for ent in stored])
             indices = np.array([v for ent in stored for (v, _) in ent], dtype=np.int32)
             if kind == "mc":
-                data = np.array([(1.0 / len(rows[i]) if e else 0.0) for i, ent in enumerate(stored) for (_, e) in ent])
+                data = np.array([(P[i][v] if e else 0.0) for i, ent in enumerate(stored) for (v, e) in ent])
             elif form == "wcsr-zeros":
                 data = np.array([(rng.choice([0.25, 0.5, 1.0, 2.0, 3.5]) if e else 0.0) for ent in stored for (_, e) in ent])
             else:
@@ -252,13 +254,25 @@ def run(ctx):
                 rep["cyc_lab"] = tolists(attempt(lambda: mc.cyclic_classes))
         rep["labels"] = labels
         if sparse.issparse(arg):
-            same = (arg.data.dtype == before[0].dtype and np.array_equal(arg.data, before[0])
-                    and np.array_equal(arg.indices, before[1]) and np.array_equal(arg.indptr, before[2]))
-            if not same:
-                ctx.spec_fail(kind + ":mutated-input", "the caller's sparse matrix was modified",
+            # the matrix the caller handed over must still denote the same matrix (value comparison entry by entry,
+            # and the same number of stored entries); a mere re-ordering of the storage is only counted
+            def dense_of(data, indices, indptr):
+                D = [[0.0] * n for _ in range(n)]
+                for i in range(n):
+                    for t in range(indptr[i], indptr[i + 1]):
+                        D[i][indices[t]] += float(data[t])
+                return D
+            now = (arg.data, arg.indices, arg.indptr)
+            ok = (len(now[0]) == len(before[0]) and len(now[2]) == len(before[2]) and arg.data.dtype == before[0].dtype
+                  and dense_of(*now) == dense_of(*before))
+            if not ok:
+                ctx.spec_fail(kind + ":mutated-input", "the caller's sparse matrix changed value: %s -> %s"
+                              % (dense_of(*before), dense_of(*now) if len(now[2]) == n + 1 else "?"),
                               {"op": kind, "form": form, "n": n, "adj": [list(map(int, r)) for r in A],
                                "data": before[0].tolist(), "indices": before[1].tolist(), "indptr": before[2].tolist()})
-            ctx.count("sparse-input-unchanged-checked")
+            elif not all(np.array_equal(x, y) for x, y in zip(now, before)):
+                ctx.count("sparse-input:storage-reordered-same-matrix")
+            ctx.count("sparse-input:value-unchanged-checked")
         replay = {"op": kind, "form": form, "n": n, "adj": [list(map(int, r)) for r in A], "labels": labels,
                   "csr": None if not sparse.issparse(arg) else {"data": before[0].tolist(), "indices": before[1].tolist(),
                                                               "indptr": before[2].tolist()},
